@@ -1527,6 +1527,10 @@ def array_shift(*,
     '''
 
     # works for all shapes
+    if not array.shape[axis]:
+        # nothing to move along an empty axis
+        return array.copy()
+
     if shift > 0:
         shift_mod = shift % array.shape[axis]
     elif shift < 0:
